@@ -12,15 +12,19 @@
      - swap hands the two element sequences over unchanged (same objects, same places), and
        neither constructs, copies, destroys, allocates nor frees anything;
      - an element that appears was born in this operation, at the place where it now is
-       (constructed in place for the pool containers, copy-constructed from the argument for
-       the others);
-     - a destructor event names the place the object had;
-     - an element disappears only through a removal: insertions take nothing away, a remove
-       operation at most one element, and that one is the element the operation names (by
-       position, front, back, key or payload);
+       (some constructor ran there: the statement fixes the KIND of construction only for the pool
+       containers, which never copy or move);
+     - a destructor event of an element names the place the element had (temporaries that are created and destroyed
+       inside one operation are not elements);
+     - an element disappears only through a removal: insertions - of one element or of all the
+       elements of the other container - take nothing away, a remove operation at most one
+       element, and that one is the element the operation names (by position, front, back, key
+       or payload);
      - no two live elements share a place;  the other container is not touched;
      - PoolList / PoolMap never copy, move or assign an element;
-     - item blocks are only released by the destructor. *)
+     - an allocation that holds a live element is not released (the statement protects elements
+       "while they live"; that the model releases blocks only in the destructor is a theorem
+       about the model, blocks_released_only_by_destructor, not a demand on observations). *)
 From Coq Require Import ZArith List Bool Arith.
 Import ListNotations.
 Local Open Scope Z_scope.
@@ -53,7 +57,15 @@ Inductive op :=
 | OSel (b : bool)                   (* select container A (false) / B (true) *)
 | OApp (k v : Z) | OPre (k v : Z) | OInsAt (pos : nat) (k v : Z)
 | ORemAt (pos : nat) | ORemFront | ORemBack | ORemKey (k : Z)
-| OClear | OSwap | OAssign | ODestroy.
+| OClear | OSwap | OAssign | ODestroy
+(* whole-container operations: the argument is the OTHER container of the pair *)
+| OInsAll (pos : option nat)        (* List::append (None) / prepend (Some 0) / insert(position, ..) (const List&),
+                                       HashSet::append(const HashSet&), Map::insert(const Map&) *)
+| ORemAll                           (* HashSet::remove(const HashSet&) *)
+| OHint (pos : nat) (k v : Z).      (* Map / MultiMap ::insert(position, key, value): insertion with a position hint *)
+Definition has_insall (k : kind) : bool := match k with KList | KHashSet | KMap => true | _ => false end.
+Definition has_remall (k : kind) : bool := match k with KHashSet => true | _ => false end.
+Definition has_hint (k : kind) : bool := match k with KMap | KMulti => true | _ => false end.
 
 (* ---- the checker -------------------------------------------------------------------------- *)
 Record obs := mkObs { ob_a : list node; ob_b : list node }.
@@ -76,7 +88,11 @@ Fixpoint nodes_eqb (a b : list node) : bool :=
 Definition may_assign (kd : kind) (o : op) (k : Z) : bool :=
   match kd with
   | KMap | KHashMap | KPoolMap =>
-      match o with OApp k' _ | OPre k' _ | OInsAt _ k' _ => k =? k' | _ => false end
+      match o with
+      | OApp k' _ | OPre k' _ | OInsAt _ k' _ | OHint _ k' _ => k =? k'
+      | OInsAll _ => match kd with KMap => true | _ => false end      (* Map::insert(const Map&) assigns the payloads of the keys both maps have *)
+      | _ => false
+      end
   | _ => false
   end.
 
@@ -88,7 +104,17 @@ Definition event_eqb (a b : event) : bool :=
   | _, _ => false
   end.
 
+(* the construction event the MODEL emits for a new element (it mirrors the code: the pool containers construct in
+   place, the others copy-construct from the argument) ... *)
 Definition birth (kd : kind) (id : nat) (s : slot) : event := if is_pool kd then ECons id s else ECopy id s.
+(* ... and what the property demands of an observation: SOME constructor created the object id at the place s in this
+   operation; a copy or move constructor only outside the pool containers *)
+Definition born (kd : kind) (id : nat) (s : slot) (e : event) : bool :=
+  match e with
+  | ECons i t => (i =? id)%nat && slot_eqb t s
+  | ECopy i t | EMove i t => negb (is_pool kd) && (i =? id)%nat && slot_eqb t s
+  | _ => false
+  end.
 
 (* one element of the selected / other side after the operation *)
 Definition elem_ok (kd : kind) (o : op) (assignable : bool) (next : nat) (ev : list event)
@@ -100,13 +126,15 @@ Definition elem_ok (kd : kind) (o : op) (assignable : bool) (next : nat) (ev : l
   | None =>
       match lookup_id prev_other (n_id n) with
       | Some _ => false                                           (* changed container *)
-      | None => (next <=? n_id n)%nat && existsb (event_eqb (birth kd (n_id n) (n_slot n))) ev
+      | None => (next <=? n_id n)%nat && existsb (born kd (n_id n) (n_slot n)) ev
       end
   end.
 
-Definition destroy_ok (prev : list node) (e : event) : bool :=
+(* a destructor event of an element names the place the element had; the destructor of an object that was created in
+   this very operation and never was an element (a temporary) is no concern of the property *)
+Definition destroy_ok (prev : list node) (next : nat) (e : event) : bool :=
   match e with
-  | EDestroy id s => match lookup_id prev id with Some p => slot_eqb s (n_slot p) | None => false end
+  | EDestroy id s => match lookup_id prev id with Some p => slot_eqb s (n_slot p) | None => (next <=? id)%nat end
   | _ => true
   end.
 
@@ -114,14 +142,20 @@ Definition pool_event_ok (e : event) : bool :=
   match e with ECopy _ _ | EMove _ _ | EAssign _ => false | _ => true end.
 Definition is_free (e : event) : bool := match e with EFree _ => true | _ => false end.
 Definition is_destroy_op (o : op) : bool := match o with ODestroy => true | _ => false end.
+(* outside the destructor an allocation may only be released when no element that is live after the operation lies in it *)
+Definition free_ok (o : op) (all_now : list node) (e : event) : bool :=
+  match e with
+  | EFree ser => is_destroy_op o || negb (existsb (fun n => (fst (n_slot n) =? ser)%nat) all_now)
+  | _ => true
+  end.
 
 (* an element only disappears through a removal: how many elements of the selected container an
    operation may take away (None = any number: clear, operator=, destructor) *)
 Definition removal_budget (o : op) : option nat :=
   match o with
-  | OSel _ | OApp _ _ | OPre _ _ | OInsAt _ _ _ | OSwap => Some O
+  | OSel _ | OApp _ _ | OPre _ _ | OInsAt _ _ _ | OSwap | OInsAll _ | OHint _ _ _ => Some O
   | ORemAt _ | ORemFront | ORemBack | ORemKey _ => Some 1%nat
-  | OClear | OAssign | ODestroy => None
+  | OClear | OAssign | ODestroy | ORemAll => None
   end.
 Definition missing (prev now : list node) : list node :=
   filter (fun p => negb (existsb (fun n => (n_id n =? n_id p)%nat) now)) prev.
@@ -135,9 +169,11 @@ Definition takes (kd : kind) (o : op) (prev_sel : list node) (m : node) : bool :
   | ORemKey k => match kd with KList => n_val m =? k | KPoolList => false | _ => n_key m =? k end
   | _ => true
   end.
-Definition removed_ok (kd : kind) (o : op) (prev_sel now_sel : list node) : bool :=
+(* HashSet::remove(const HashSet&) takes only elements whose key the other set contains *)
+Definition key_in (l : list node) (m : node) : bool := existsb (fun p => n_key p =? n_key m) l.
+Definition removed_ok (kd : kind) (o : op) (prev_sel prev_oth now_sel : list node) : bool :=
   match removal_budget o with
-  | None => true
+  | None => match o with ORemAll => forallb (key_in prev_oth) (missing prev_sel now_sel) | _ => true end
   | Some b => (length (missing prev_sel now_sel) <=? b)%nat && forallb (takes kd o prev_sel) (missing prev_sel now_sel)
   end.
 
@@ -149,8 +185,8 @@ Definition check_step (kd : kind) (st : sstate) (o : op) (now : obs) (ev : list 
   let all_now := ob_a now ++ ob_b now in
   nodup_nat (map n_id all_now) && nodup_slot (map n_slot all_now) &&
   (if is_pool kd then forallb pool_event_ok ev else true) &&
-  (if is_destroy_op o then true else negb (existsb is_free ev)) &&
-  forallb (destroy_ok (ob_a prev ++ ob_b prev)) ev &&
+  forallb (free_ok o all_now) ev &&
+  forallb (destroy_ok (ob_a prev ++ ob_b prev) (ss_next st)) ev &&
   match o with
   | OSwap =>
       if has_swap kd
@@ -160,7 +196,7 @@ Definition check_step (kd : kind) (st : sstate) (o : op) (now : obs) (ev : list 
       (if sel then nodes_eqb (ob_a now) (ob_a prev) else nodes_eqb (ob_b now) (ob_b prev)) &&
       forallb (elem_ok kd o (negb sel) (ss_next st) ev (ob_a prev) (ob_b prev)) (ob_a now) &&
       forallb (elem_ok kd o sel (ss_next st) ev (ob_b prev) (ob_a prev)) (ob_b now) &&
-      (if sel then removed_ok kd o (ob_b prev) (ob_b now) else removed_ok kd o (ob_a prev) (ob_a now))
+      (if sel then removed_ok kd o (ob_b prev) (ob_a prev) (ob_b now) else removed_ok kd o (ob_a prev) (ob_b prev) (ob_a now))
   end.
 
 Definition next_sstate (st : sstate) (o : op) (now : obs) : sstate :=
